@@ -55,6 +55,8 @@ pub fn take_calls() -> Vec<Call> {
 
 /// fault id wildcard: the first call of the stage panics
 pub const ANY_ID: u64 = 0x00FF_FFFF_FFFF_FFFF;
+/// fault id wildcard: every call of the stage panics (several workers panic in the same run)
+pub const ALL_ID: u64 = 0x00FF_FFFF_FFFF_FFFE;
 
 pub fn enc_fault(stage: u8, id: u64) -> u64 {
     ((stage as u64) << 56) | (id & 0x00FF_FFFF_FFFF_FFFF)
@@ -97,7 +99,7 @@ fn enter(stage: u8, id: u64) -> Flag {
     N_CALLS.fetch_add(1, SeqCst);
     CALLS.lock().unwrap_or_else(|e| e.into_inner()).push(Call { stage, id, thread: t });
     let fault = PANIC_AT.load(SeqCst);
-    if fault == enc_fault(stage, id) || fault == enc_fault(stage, ANY_ID) {
+    if fault == enc_fault(stage, id) || fault == enc_fault(stage, ANY_ID) || fault == enc_fault(stage, ALL_ID) {
         panic!("injected fault at stage {} id {:#x}", stage, id);
     }
     flag
